@@ -262,6 +262,9 @@ class _PairLoss(OpDef):
                 {"shape": [2, 2], "via": "M", "red": "avg"}, {"shape": [3], "via": "M", "red": "Mean"}]
 
     def inputs(self, args):
+        if "values" in args:
+            return [Inp("p", args["shape"], differentiable=False, concrete=np.array(args["values"]["p"], dtype=np.float32)),
+                    Inp("t", args["shape"], differentiable=False, concrete=np.array(args["values"]["t"], dtype=np.float32))]
         return [Inp("p", args["shape"], **self.pdom),
                 Inp("t", args.get("tshape", args["shape"]), differentiable=self.t_differentiable, **self.tdom)]
 
@@ -297,7 +300,9 @@ class BCE(_PairLoss):
     name = "bce_loss"
     fname = "binary_cross_entropy"
     mod = "BCELoss"
-    pdom = dict(lo=0, hi=1, lo_strict=True, hi_strict=True)
+    # probabilities bounded away from 0 and 1: there the clamp of the log terms at -100 is provably inactive (the clamp itself is
+    # covered by the concrete configurations below); closer to the ends a double cannot even represent the solver's points
+    pdom = dict(lo=1e-6, hi=1 - 1e-6)
     tdom = dict(lo=0, hi=1)
     t_differentiable = True      # the loss is affine in the target: a target that requires grad receives log((1-p)/p) * g
 
@@ -305,7 +310,21 @@ class BCE(_PairLoss):
         return True
 
     def f(self, p, t):
+        if isinstance(p, (float, np.floating)):
+            # special points, as PyTorch defines them: each log term is clamped at -100 (p = 0 with t = 1 gives 100)
+            import math
+            lp = max(math.log(p), -100.0) if p > 0 else -100.0
+            l1 = max(math.log(1 - p), -100.0) if p < 1 else -100.0
+            return -(float(t) * lp + (1 - float(t)) * l1)
         return 0 - (t * slog(p) + (1 - t) * slog(1 - p))
+
+    def configs(self, tier):
+        out = super().configs(tier)
+        # probabilities at and near the ends of [0, 1], with the library's guard constant in place
+        vals = {"p": [0.0, 1.0, 1e-13, 0.25, 1.0, 0.0], "t": [1.0, 0.0, 1.0, 0.5, 1.0, 0.0]}
+        out.append({"shape": [6], "via": "F", "values": vals})
+        out.append({"shape": [6], "via": "M", "red": "mean", "values": vals})
+        return out
 
 
 @reg
